@@ -248,9 +248,17 @@ def _dict(eng, *a, **kw):
     return d
 
 
+def _has_sym(v):
+    from .interp import _contains_sym
+    return _contains_sym(v)
+
+
 def _set(eng, x=()):
     items = eng.iterate(x)
-    if any(is_sym(i) for i in items):
+    if any(is_sym(i) or _has_sym(i) for i in items):
+        if eng.policy.get("generic_iteration"):
+            f = ufunc("set_of", Obj, Obj)
+            return f(eng.box(items))
         raise Unsupported("set() of symbolic elements")
     try:
         return set(items)
@@ -307,7 +315,10 @@ def _filter(eng, f, it):
 def _sorted(eng, it, key=None, reverse=False):
     items = eng.iterate(it)
     keys = [eng.call(key, [x], {}) for x in items] if key is not None else items
-    if any(is_sym(k) or isinstance(k, (Rec,)) for k in keys):
+    if any(is_sym(k) or isinstance(k, (Rec,)) or _has_sym(k) for k in keys):
+        if eng.policy.get("generic_iteration"):
+            f = ufunc("sorted_of", Obj, Obj)
+            return f(eng.box(items))
         raise Unsupported("sorted() with symbolic keys")
     try:
         order = sorted(range(len(items)), key=lambda i: keys[i], reverse=bool(reverse))
